@@ -338,7 +338,7 @@ def _anc(n):
 
 
 ALLOWED_ESCAPES = {"CommError", "ResponseError"}
-USER_ORIGINS = (" tag_request_path:", " ReadModifyWriteRequestPacket.__init__:", " WriteTagRequestPacket.__init__:", " encode_value:", " LogixDriver._parse_tag_request:", " LogixDriver._get_tag_info:", " _find_tag_index:")
+USER_ORIGINS = (" tag_request_path:", " ReadModifyWriteRequestPacket.__init__:", " WriteTagRequestPacket.__init__:", " ReadModifyWriteRequestPacket.set_bit:", " encode_value:", " LogixDriver._parse_tag_request:", " LogixDriver._get_tag_info:", " _find_tag_index:")
 
 
 @rule(P, "D3.8", "T-EXCFLOW", floor=3)
@@ -395,3 +395,62 @@ def d3_8(ctx):
                         ctx.violation(ckey(f"{c.key}.{m.name}", f"null-deref:{src(n)}"), n, f"`{src(n)}`: the look-up returns None for an unknown key and is dereferenced before any None test (AttributeError escapes; the later `is None` test is dead)")
     if flow.unresolved:
         ctx.assume("calls not resolved by the escape analysis (treated as non-raising): " + ", ".join(sorted(flow.unresolved)[:40]))
+
+
+@rule(P, "D3.9", "T-SHARED", floor=1)
+def d3_9(ctx):
+    """A packet shared by several requests (bit writes merged per tag) is never failed as a whole on behalf of one of them:
+    the per-request methods called on it while merging do not store the packet-level error."""
+    fn = ctx.model.func(f"{LX}:LogixDriver._write_build_multi_requests")
+    f = fn.node
+    # shared packets: a table stored into and read back under the same variable; the region is the innermost branch holding
+    # the store (the variable name is reused for unshared packets elsewhere in the loop)
+    from ..astutil import ancestors
+
+    classes, calls, shared_vars = set(), [], set()
+    for st in walk(f):
+        if not (isinstance(st, ast.Assign) and isinstance(st.targets[0], ast.Subscript) and isinstance(st.targets[0].value, ast.Name) and isinstance(st.value, ast.Name)):
+            continue
+        table, var = st.targets[0].value.id, st.value.id
+        branch = next((a for a in ancestors(st) if isinstance(a, ast.If)), None)
+        if branch is None:
+            continue
+        arm = branch.body if any(st is x for s_ in branch.body for x in walk(s_)) else branch.orelse
+        region = [x for s_ in arm for x in walk(s_)]
+        if not any(isinstance(x, ast.Assign) and isinstance(x.value, ast.Subscript) and atom_name(x.value.value) == table and atom_name(x.targets[0]) == var for x in region):
+            continue  # never read back: not a merge table
+        shared_vars.add(var)
+        for x in region:
+            if isinstance(x, ast.Assign) and atom_name(x.targets[0]) == var and isinstance(x.value, ast.Call):
+                c = ctx.folder.eval(x.value.func, fn.module)
+                if isinstance(c, ClassRef):
+                    classes.add(c.ci)
+            if isinstance(x, ast.Call) and isinstance(x.func, ast.Attribute) and atom_name(x.func.value) == var:
+                calls.append(x)
+    if not classes or not calls:
+        ctx.undecided(ckey(fn, "shared-packet"), f, f"merged packet not identified (vars {sorted(shared_vars)}, classes {[c.name for c in classes]}, calls {len(calls)})")
+        return
+    for call in calls:
+        for ci in classes:
+            dc, m = ci.lookup(call.func.attr)
+            if m is None:
+                continue
+            stores = []
+            seen = set()
+
+            def visit(ci_, m_, depth=0):
+                if id(m_) in seen or depth > 3:
+                    return
+                seen.add(id(m_))
+                for n in walk(m_):
+                    if isinstance(n, ast.Attribute) and isinstance(n.ctx, ast.Store) and atom_name(n.value) == "self" and n.attr in ("error", "_error"):
+                        stores.append(n)
+                    if isinstance(n, ast.Call) and isinstance(n.func, ast.Attribute) and atom_name(n.func.value) == "self":
+                        _, m2 = ci_.lookup(n.func.attr)
+                        if m2 is not None:
+                            visit(ci_, m2, depth + 1)
+
+            visit(ci, m)
+            ctx.check(not stores, ckey(f"{ci.key}.{call.func.attr}", "no-packet-error"), stores[0] if stores else m, f"{call.func.attr}() (called once per merged request) leaves the shared packet's error untouched",
+                      f"{ci.name}.{call.func.attr}() is called for each request merged into one packet and stores the packet-level `{stores[0].attr if stores else ''}`: CIPDriver.send() then skips the packet and write() copies "
+                      f"the one failure to every merged request - one request's problem changes the outcome of the others", caller=fn.key)
